@@ -185,6 +185,15 @@ HOLE_LIB = [
     ('box', (1, 3), (3, 1)),
     ('box', (2, 6), (6, 2)),
 ]
+# holes that are disjoint although their bounding rectangles overlap (an L with a small hole in its notch,
+# two triangles facing each other): the answer must not depend on which hole is listed first
+HOLE_L = ('poly', [(1, 1), (5, 1), (5, 2), (2, 2), (2, 5), (1, 5)], False)
+HOLE_NOTCH = ('poly', [(3, 3), (4, 3), (4, 4), (3, 4)], True)
+HOLE_T1 = ('poly', [(1, 5), (6, 5), (1, 7)], False)
+HOLE_T2 = ('poly', [(7, 7), (2, 7), (7, 5)], True)
+HOLE_NOTCH_BOX = ('box', (3, 4), (4, 3))
+OVERLAPPING_EXTENTS = [[HOLE_L, HOLE_NOTCH], [HOLE_NOTCH, HOLE_L], [HOLE_T1, HOLE_T2], [HOLE_T2, HOLE_T1],
+                       [HOLE_L, HOLE_NOTCH_BOX], [HOLE_NOTCH_BOX, HOLE_L], [HOLE_L, HOLE_NOTCH, HOLE_T2]]
 HOLE_HOSTS = ['square', 'square+collinear', 'hexagon', 'diamond']
 
 
@@ -276,6 +285,8 @@ def main():
                                         [HOLE_LIB[0], HOLE_LIB[2]]]
     for nm, ring in hosts:
         sel = combos if thorough else rng.sample(combos[:len(HOLE_LIB)], 2) + [rng.choice(combos[len(HOLE_LIB):])]
+        if nm in ('square', 'square+collinear'):
+            sel = sel + OVERLAPPING_EXTENTS
         for hs in sel:
             n = len(ring)
             grid_case(nm, ring, rng.randrange(n), rng.random() < 0.5, closed=True, holes=hs)
